@@ -49,7 +49,7 @@ def build(ctx, name, sources, libs=(), defines=(), sanitize=True, opt="-O1", ext
 def run_lines(cmd, lines, timeout=1200, env=None, cwd=None):
     """Feed lines to a process; returns (rc, list of output lines, stderr text)."""
     e = dict(os.environ)
-    e.setdefault("ASAN_OPTIONS", "detect_leaks=1:abort_on_error=0:exitcode=99:allocator_may_return_null=1:max_allocation_size_mb=1024")
+    e.setdefault("ASAN_OPTIONS", "detect_leaks=1:abort_on_error=0:exitcode=99:allocator_may_return_null=1:max_allocation_size_mb=4200")
     e.setdefault("UBSAN_OPTIONS", "print_stacktrace=1:halt_on_error=1:exitcode=98")
     if env:
         e.update(env)
